@@ -164,6 +164,17 @@ def narrowing_templates():
             T.append([("fndecl", "f", [("n", INT)], INT, [("loop", ("block", [("break",)])), sig, ("return", V("n"))]), call("f", I(1))])
             T.append([("for", "k", ("post", "iter", ("array", [I(1)])), ("block", [])), sig, I(1)])
             T.append([("fndecl", "f", [], INT, [("for", "k", ("post", "iter", ("array", [I(1)])), ("block", [("set", "g", ("fn", [], INT, [sig, ("return", I(1))])), ("call", V("g"), [])])), ("return", I(2))]), call("f", I(0))[:2] + ([],)])
+    # a signal in the ITERATOR expression of a `for` (evaluated once, before the loop exists): block, module, branch, arm
+    for sig in (("break",), ("continue",)):
+        for it in (("block", [sig, ("array", [I(1)])]),
+                   ("facc", ("mod", [("set", "it", ("array", [I(1), I(2)])), sig]), "it"),
+                   ("facc", ("mod", [("set", "it", ("array", [I(1), I(2)])), ("if", ("bin", "eq", ("at", V("it"), I(0)), I(1)), ("block", [sig]), None)]), "it"),
+                   ("if", ("bin", "eq", I(1), I(1)), ("block", [sig, ("array", [I(1)])]), ("block", [("array", [I(2)])])),
+                   ("match", I(1), [("val", [I(1)], ("block", [sig, ("array", [I(1)])])), ("other", ("block", [("array", [I(2)])]))])):
+            loop = ("for", "k", ("post", "iter", it), ("block", []))
+            T.append([loop, I(1)])
+            T.append([("fndecl", "f", [("n", INT)], INT, [loop, ("return", V("n"))]), call("f", I(1))])
+            T.append([("set", "g", ("fn", [("n", INT)], INT, [("block", [loop]), ("return", V("n"))])), ("call", V("g"), [I(1)])])
     T.append([("return", I(1))])
     T.append([("block", [("return", I(1))]), I(2)])
     T.append([("set", "m", ("mod", [("return", I(1))])), I(2)])
